@@ -41,13 +41,13 @@ def make_task(label, cfg, alphabet, depth, oracles, hooks=None, max_transitions=
             "extra": extra or {}, "part": part}
 
 
-def split(n, **kw):
-    """n tasks that partition one BFS by first event."""
+def split(n, level=1, **kw):
+    """n tasks that partition one BFS by first event (level=1) or by the first two events (level=2)."""
     out = []
     for i in range(n):
         k = dict(kw)
         k["label"] = "%s#%d/%d" % (kw["label"], i, n)
-        k["part"] = (i, n)
+        k["part"] = (i, n) if level == 1 else (i, n, 2)
         out.append(make_task(**k))
     return out
 
@@ -75,7 +75,7 @@ def run_seq_task(mod, task):
             pass
         last_sig = sigbox.get("sig", "-")
         enabled = r.enabled
-        if not hist and task.get("part"):
+        if not hist and task.get("part") and len(task["part"]) == 2:
             i, n = task["part"]
             enabled = [e for j, e in enumerate(enabled) if j % n == i]
         resp = {"violations": viol, "digest": r.digest, "enabled": enabled,
@@ -91,8 +91,10 @@ def run_seq_task(mod, task):
         return resp
 
     try:
+        part = task.get("part")
         st = seq.bfs(cfg, None, task["depth"], oracles, hooks, executor=executor,
-                     max_transitions=task.get("max_transitions"))
+                     max_transitions=task.get("max_transitions"),
+                     part2=tuple(part[:2]) if part and len(part) == 3 else None)
     finally:
         server.close()
     res = new_result()
